@@ -118,7 +118,7 @@ func (h *harness) svCorrespondence() {
 	}
 	got, err := h.drv.AskAll(lines)
 	if err != nil {
-		h.res.Note("driver: %v", err)
+		h.res.Fatalf("driver: %v", err)
 		return
 	}
 	h.res.Compared(len(got))
